@@ -219,70 +219,70 @@ theorem upsert_ne_nil {K V : Type} [DecidableEq K] (l : List (K × V)) (a : K) (
 /-! ## the item transformations -/
 
 /-- every way a handler or the block boundary changes the records of one proposal, with the
-    guards of the code path (E: float comparisons; h: block height; opts, vals: what is read) -/
-inductive Trans (E : Env) (h : Int) (opts : Opts) (vals : List (Addr × ValRec)) : Item → Item → Prop
+    guards of the code path (h: block height; opts, vals: what is read) -/
+inductive Trans (h : Int) (opts : Opts) (vals : List (Addr × ValRec)) : Item → Item → Prop
   | create (it : Item) (p : Proposal) (v : Int) :
       it.exists = false → p.status = .funding → p.outcome = .inProgress → 0 ≤ v → h < p.fundingDeadline →
-      Trans E h opts vals it ((it.set .active p).addFunds p.proposer v)
+      Trans h opts vals it ((it.set .active p).addFunds p.proposer v)
   | fundMore (it : Item) (p : Proposal) (f : Addr) (v : Int) :
       it.active = some p → p.status = .funding → h ≤ p.fundingDeadline → 0 ≤ v →
       ¬ (v + it.total ≥ p.fundingGoal) →
-      Trans E h opts vals it (it.addFunds f v)
+      Trans h opts vals it (it.addFunds f v)
   | fundStart (it : Item) (p : Proposal) (f : Addr) (v : Int) :
       it.active = some p → p.status = .funding → h ≤ p.fundingDeadline → 0 ≤ v →
       v + it.total ≥ p.fundingGoal →
-      Trans E h opts vals it
+      Trans h opts vals it
         (((it.set .active { p with status := .voting, votingDeadline := h + (opts.byType p.ptype).votingDeadline }).withVotes
               (snapshot it.votes vals)).addFunds f v)
   | voteTbd (it : Item) (p : Proposal) (a : Addr) (o : Opinion) (votes' : List (Addr × VoteRec)) :
       it.active = some p → p.status = .voting → h ≤ p.votingDeadline →
       updateVote it.votes a o = some votes' →
-      resultSoFar E votes' (opts.byType p.ptype).passPercent = some .tbd →
-      Trans E h opts vals it (it.withVotes votes')
+      resultSoFar votes' (opts.byType p.ptype).passPercent = some .tbd →
+      Trans h opts vals it (it.withVotes votes')
   | votePass (it : Item) (p : Proposal) (a : Addr) (o : Opinion) (votes' : List (Addr × VoteRec)) :
       it.active = some p → p.status = .voting → h ≤ p.votingDeadline →
       updateVote it.votes a o = some votes' →
-      resultSoFar E votes' (opts.byType p.ptype).passPercent = some .passed →
-      Trans E h opts vals it
+      resultSoFar votes' (opts.byType p.ptype).passPercent = some .passed →
+      Trans h opts vals it
         (((it.withVotes votes').set .passed { p with status := .completed, outcome := .completedYes }).del .active)
   | voteFail (it : Item) (p : Proposal) (a : Addr) (o : Opinion) (votes' : List (Addr × VoteRec)) :
       it.active = some p → p.status = .voting → h ≤ p.votingDeadline →
       updateVote it.votes a o = some votes' →
-      resultSoFar E votes' (opts.byType p.ptype).passPercent = some .failed →
-      Trans E h opts vals it
+      resultSoFar votes' (opts.byType p.ptype).passPercent = some .failed →
+      Trans h opts vals it
         (((it.withVotes votes').set .failed { p with status := .completed, outcome := .completedNo }).del .active)
   | cancel (it : Item) (p : Proposal) :
       it.active = some p → p.status = .funding → h ≤ p.fundingDeadline →
-      Trans E h opts vals it ((it.set .failed { p with status := .completed, outcome := .cancelled }).del .active)
+      Trans h opts vals it ((it.set .failed { p with status := .completed, outcome := .cancelled }).del .active)
   | expire (it : Item) (p : Proposal) :
-      it.active = some p →
-      Trans E h opts vals it ((it.set .failed { p with status := .completed, outcome := .insufficientVotes }).del .active)
+      it.active = some p → p.status = .voting → h > p.votingDeadline →
+      Trans h opts vals it ((it.set .failed { p with status := .completed, outcome := .insufficientVotes }).del .active)
   | withdraw (it : Item) (p : Proposal) (f : Addr) (v : Int) (it2 : Item) :
       it.queryAll = some p → (p.outcome = .cancelled ∨ p.outcome = .insufficientFunds) →
       isFundedBy it.funds f = true → 0 ≤ v → it.deductFunds f v = some it2 →
-      Trans E h opts vals it it2
+      Trans h opts vals it it2
   | withdrawConv (it : Item) (p : Proposal) (f : Addr) (v : Int) (it2 : Item) :
       it.queryAll = some p → p.outcome ≠ .cancelled → p.outcome ≠ .insufficientFunds →
       it.total < p.fundingGoal → h > p.fundingDeadline →
       isFundedBy it.funds f = true → 0 ≤ v →
       ((it.set .failed { p with outcome := .insufficientFunds, status := .completed }).del .active).deductFunds f v = some it2 →
-      Trans E h opts vals it it2
+      Trans h opts vals it it2
   | finCfgFailed (it : Item) (p : Proposal) :
       it.finalized = none → it.finFailed = none → it.decided = some p → p.status = .completed →
-      resultSoFar E it.votes p.passPercent = some .passed →
-      Trans E h opts vals it ((it.set .finFailed p).del .passed)
+      resultSoFar it.votes p.passPercent = some .passed →
+      Trans h opts vals it ((it.set .finFailed p).del .passed)
   | finalize (it : Item) (p : Proposal) (r : VoteResult) (src : Store) :
       it.finalized = none → it.finFailed = none → it.decided = some p → p.status = .completed →
-      resultSoFar E it.votes p.passPercent = some r →
+      resultSoFar it.votes p.passPercent = some r →
       ((r = .passed ∧ src = .passed) ∨ (r = .failed ∧ src = .failed)) →
       it.deleteAllFunds.2 = false →
-      Trans E h opts vals it ((it.deleteAllFunds.1.set .finalized p).del src)
+      Trans h opts vals it ((it.deleteAllFunds.1.set .finalized p).del src)
   | finBad (it : Item) (p : Proposal) (r : VoteResult) :
       it.finalized = none → it.finFailed = none → it.decided = some p → p.status = .completed →
-      resultSoFar E it.votes p.passPercent = some r → (r = .passed ∨ r = .failed) →
+      resultSoFar it.votes p.passPercent = some r → (r = .passed ∨ r = .failed) →
       it.deleteAllFunds.2 = true →
-      Trans E h opts vals it ((it.deleteAllFunds.1.set .finFailed p).del .passed)
-  | commit (it : Item) : Trans E h opts vals it it.commit
+      Trans h opts vals it ((it.deleteAllFunds.1.set .finFailed p).del .passed)
+  | commit (it : Item) : Trans h opts vals it it.commit
 
 /-! ## the per-item invariant -/
 
@@ -359,8 +359,8 @@ theorem snapshot_uncommitted (votes : List (Addr × VoteRec)) (vals : List (Addr
     simp only [List.foldl_cons]
     exact ih _ (setupVote_uncommitted votes hd.1 hd.2.power hu)
 
-theorem resultSoFar_some (E : Env) (votes : List (Addr × VoteRec)) (pass : Int) (r : VoteResult)
-    (h : resultSoFar E votes pass = some r) : ∃ kv ∈ votes, kv.2.committed = true := by
+theorem resultSoFar_some (votes : List (Addr × VoteRec)) (pass : Int) (r : VoteResult)
+    (h : resultSoFar votes pass = some r) : ∃ kv ∈ votes, kv.2.committed = true := by
   unfold resultSoFar at h
   by_cases hc : (cvotes votes).isEmpty
   · simp [hc] at h
@@ -774,8 +774,8 @@ theorem wfi_finCfgFailed (it : Item) (p : Proposal) (w : WFI it) (hd : it.decide
 
 /-- a decided tally means a committed vote record, hence no fund record of this block, hence
     `DeleteAllFunds` removes every record and zeroes the total -/
-theorem deleteAll_clears (E : Env) (it : Item) (pass : Int) (r : VoteResult) (w : WFI it)
-    (ht : resultSoFar E it.votes pass = some r) :
+theorem deleteAll_clears (it : Item) (pass : Int) (r : VoteResult) (w : WFI it)
+    (ht : resultSoFar it.votes pass = some r) :
     it.deleteAllFunds.2 = false ∧ it.deleteAllFunds.1.total = 0 ∧ it.deleteAllFunds.1.funds = [] := by
   obtain ⟨h1, h2⟩ := deleteAllFunds_ok it w.totalIsSum w.fundsNonneg
   refine ⟨h1, h2, ?_⟩
@@ -785,15 +785,15 @@ theorem deleteAll_clears (E : Env) (it : Item) (pass : Int) (r : VoteResult) (w 
   cases hc : kv.2.committed with
   | true => rfl
   | false =>
-    obtain ⟨kv', hkv', hc'⟩ := resultSoFar_some E it.votes pass r ht
+    obtain ⟨kv', hkv', hc'⟩ := resultSoFar_some it.votes pass r ht
     have := w.freshFunds ⟨kv, hkv, hc⟩ kv' hkv'
     rw [this] at hc'; cases hc'
 
-theorem wfi_finalize (E : Env) (it : Item) (p : Proposal) (r : VoteResult) (src : Store) (w : WFI it)
-    (hd : it.decided = some p) (ht : resultSoFar E it.votes p.passPercent = some r)
+theorem wfi_finalize (it : Item) (p : Proposal) (r : VoteResult) (src : Store) (w : WFI it)
+    (hd : it.decided = some p) (ht : resultSoFar it.votes p.passPercent = some r)
     (hsrc : src = .passed ∨ src = .failed) :
     WFI ((it.deleteAllFunds.1.set .finalized p).del src) := by
-  obtain ⟨_, htot, hfunds⟩ := deleteAll_clears E it p.passPercent r w ht
+  obtain ⟨_, htot, hfunds⟩ := deleteAll_clears it p.passPercent r w ht
   have hact : it.active = none := by
     cases ha : it.active with
     | none => rfl
@@ -876,8 +876,8 @@ theorem wfi_commit (it : Item) (w : WFI it) : WFI it.commit := by
     exact w.fundsNonneg kv0 h0
 
 
-theorem wfi_trans (E : Env) (h : Int) (opts : Opts) (vals : List (Addr × ValRec)) (it it' : Item)
-    (w : WFI it) (t : Trans E h opts vals it it') : WFI it' := by
+theorem wfi_trans (h : Int) (opts : Opts) (vals : List (Addr × ValRec)) (it it' : Item)
+    (w : WFI it) (t : Trans h opts vals it it') : WFI it' := by
   cases t with
   | create p v he hs ho hv _ => exact wfi_create it p v w he hs ho hv
   | fundMore p f v ha hs _ hv _ => exact wfi_fundMore it p f v w ha hs hv
@@ -888,7 +888,7 @@ theorem wfi_trans (E : Env) (h : Int) (opts : Opts) (vals : List (Addr × ValRec
   | voteFail p a o votes' ha hs _ hu _ =>
     exact wfi_voteDecide it p a o votes' w .failed .completedNo (Or.inr rfl) (Or.inr rfl) ha hs hu
   | cancel p ha hs _ => exact wfi_toFailed it p .cancelled w ha (Or.inl ⟨rfl, hs⟩)
-  | expire p ha => exact wfi_toFailed it p .insufficientVotes w ha (Or.inr rfl)
+  | expire p ha _ _ => exact wfi_toFailed it p .insufficientVotes w ha (Or.inr rfl)
   | withdraw p f v it2 hq hr hf hv hd =>
     obtain ⟨st, hst⟩ := Item.queryAll_get it p hq
     have hvotes : it.votes = [] := w.refundNoVotes st p hst hr
@@ -911,9 +911,9 @@ theorem wfi_trans (E : Env) (h : Int) (opts : Opts) (vals : List (Addr × ValRec
     exact wfi_deduct _ r f v w1 hr' h0 (by simpa using hvotes)
   | finCfgFailed p _ _ hd _ _ => exact wfi_finCfgFailed it p w hd
   | finalize p r src _ _ hd _ ht hsrc _ =>
-    exact wfi_finalize E it p r src w hd ht (by rcases hsrc with ⟨_, h⟩ | ⟨_, h⟩ <;> simp [h])
+    exact wfi_finalize it p r src w hd ht (by rcases hsrc with ⟨_, h⟩ | ⟨_, h⟩ <;> simp [h])
   | finBad p r _ _ hd _ ht _ hbad =>
-    have := (deleteAll_clears E it p.passPercent r w ht).1
+    have := (deleteAll_clears it p.passPercent r w ht).1
     rw [this] at hbad; cases hbad
   | commit => exact wfi_commit it w
 
@@ -938,8 +938,8 @@ structure Frame (s s' : St) : Prop where
   qFinalize : s'.qFinalize = s.qFinalize
 
 /-- `s'` is `s` with the records of at most one proposal transformed -/
-def ItemStep (E : Env) (s s' : St) : Prop :=
-  s'.items = s.items ∨ ∃ pid it', Trans E s.height s.opts s.vals (s.item pid) it' ∧ s'.items = upsert s.items pid it'
+def ItemStep (s s' : St) : Prop :=
+  s'.items = s.items ∨ ∃ pid it', Trans s.height s.opts s.vals (s.item pid) it' ∧ s'.items = upsert s.items pid it'
 
 theorem runCreate_ok (E : Env) (s s' : St) (pid : PID) (pt : PType) (pr : Addr) (ini fd g vd pp : Int) (cfg : String)
     (hopts : OptsOK s.opts) (h : runCreate E s pid pt pr ini fd g vd pp cfg = .ok s') :
@@ -991,10 +991,10 @@ theorem runFund_ok (s s' : St) (pid : PID) (f : Addr) (v : Int) (h : runFund s p
   · right; simp only [hg, if_true] at h; exact ⟨hg, h.symm⟩
   · left; simp only [hg, if_false] at h; exact ⟨hg, h.symm⟩
 
-theorem runVote_ok (E : Env) (s s' : St) (pid : PID) (a : Addr) (o : Opinion) (h : runVote E s pid a o = .ok s') :
+theorem runVote_ok (s s' : St) (pid : PID) (a : Addr) (o : Opinion) (h : runVote s pid a o = .ok s') :
     ∃ p votes' r, (s.item pid).active = some p ∧ p.status = .voting ∧ s.height ≤ p.votingDeadline ∧
       updateVote (s.item pid).votes a o = some votes' ∧
-      resultSoFar E votes' (s.opts.byType p.ptype).passPercent = some r ∧
+      resultSoFar votes' (s.opts.byType p.ptype).passPercent = some r ∧
       s' = s.setItem pid (match r with
         | .passed => ((((s.item pid).withVotes votes').set .passed { p with status := .completed, outcome := .completedYes }).del .active)
         | .failed => ((((s.item pid).withVotes votes').set .failed { p with status := .completed, outcome := .completedNo }).del .active)
@@ -1036,14 +1036,18 @@ theorem runCancel_ok (s s' : St) (pid : PID) (pr : Addr) (h : runCancel s pid pr
   exact ⟨p, hp, by simpa using h1, by omega, by simpa using h3, h.symm⟩
 
 theorem runExpire_ok (s s' : St) (pid : PID) (h : runExpire s pid = .ok s') :
-    ∃ p, (s.item pid).active = some p ∧
+    ∃ p, (s.item pid).active = some p ∧ p.status = .voting ∧ s.height > p.votingDeadline ∧
       s' = s.setItem pid (((s.item pid).set .failed { p with status := .completed, outcome := .insufficientVotes }).del .active) := by
   unfold runExpire at h
   simp only at h
   split at h; · cases h
   rename_i p hp
+  split at h; · cases h
+  rename_i hg
   simp only [Except.ok.injEq] at h
-  exact ⟨p, hp, h.symm⟩
+  have hs : p.status = .voting := by
+    cases hst : p.status <;> simp [hst] at hg ⊢
+  exact ⟨p, hp, hs, by omega, h.symm⟩
 
 theorem runWithdraw_ok (s s' : St) (pid : PID) (f : Addr) (v : Int) (b : Addr) (h : runWithdraw s pid f v b = .ok s') :
     ∃ p it1 it2, (s.item pid).queryAll = some p ∧
@@ -1104,7 +1108,7 @@ theorem distributeAndMove_ok (s s' : St) (pid : PID) (p : Proposal) (d : Dist) (
 theorem runFinalize_ok (E : Env) (s s' : St) (pid : PID) (h : runFinalize E s pid = .ok s') :
     (s' = s ∧ ((s.item pid).finalized.isSome ∨ (s.item pid).finFailed.isSome)) ∨
     ∃ p r, (s.item pid).finalized = none ∧ (s.item pid).finFailed = none ∧ (s.item pid).decided = some p ∧
-      p.status = .completed ∧ resultSoFar E (s.item pid).votes p.passPercent = some r ∧
+      p.status = .completed ∧ resultSoFar (s.item pid).votes p.passPercent = some r ∧
       ((r = .passed ∧ p.ptype = .config ∧ (∃ k v, parseCfg p.cfg = .upd k v ∧ applyUpd E s.opts k v s.height = none) ∧
           s' = toFinFailed s pid p) ∨
        ∃ d src s2, distributeAndMove s pid p d src = .ok s2 ∧
@@ -1228,14 +1232,14 @@ theorem distributeAndMove_items (s s' : St) (pid : PID) (p : Proposal) (d : Dist
 theorem Frame.refl (s : St) : Frame s s := ⟨rfl, rfl, rfl, rfl⟩
 
 theorem runFinalize_step (E : Env) (s s' : St) (pid : PID) (h : runFinalize E s pid = .ok s') :
-    Frame s s' ∧ ItemStep E s s' := by
+    Frame s s' ∧ ItemStep s s' := by
   rcases runFinalize_ok E s s' pid h with ⟨rfl, _⟩ | ⟨p, r, hf1, hf2, hd, hst, hr, hcase⟩
   · exact ⟨Frame.refl _, Or.inl rfl⟩
   · rcases hcase with ⟨hrp, _, _, rfl⟩ | ⟨d, src, s2, hdm, hsrc, hs'⟩
     · subst hrp
       refine ⟨⟨rfl, rfl, rfl, rfl⟩, Or.inr ⟨pid, _, Trans.finCfgFailed (s.item pid) p hf1 hf2 hd hst hr, rfl⟩⟩
     · obtain ⟨_, f1, f2, f3, f4, _, _, _, _, hitems⟩ := distributeAndMove_items s s2 pid p d src hdm
-      have hstep2 : ItemStep E s s2 := by
+      have hstep2 : ItemStep s s2 := by
         right
         by_cases hb : (s.item pid).deleteAllFunds.2 = true
         · simp only [hb, if_true] at hitems
@@ -1255,14 +1259,14 @@ theorem runFinalize_step (E : Env) (s s' : St) (pid : PID) (h : runFinalize E s 
       · exact ⟨⟨f1, f2, f3, f4⟩, hstep2⟩
 
 theorem runTx_step (E : Env) (s s' : St) (op : Op) (hopts : OptsOK s.opts) (h : runTx E s op = .ok s') :
-    Frame s s' ∧ ItemStep E s s' := by
+    Frame s s' ∧ ItemStep s s' := by
   cases op with
   | create pid pt pr ini fd g vd pp cfg fee =>
     simp only [runTx] at h
     obtain ⟨s1, b, h1, _, rfl⟩ := withFee_ok _ _ _ _ h
     obtain ⟨p, b1, hs, ho, hp, hi, hfd, hex, _, rfl⟩ := runCreate_ok E s s1 pid pt pr ini fd g vd pp cfg hopts h1
     refine ⟨⟨rfl, rfl, rfl, rfl⟩, Or.inr ⟨pid, _, ?_, rfl⟩⟩
-    have := Trans.create (E := E) (h := s.height) (opts := s.opts) (vals := s.vals) (s.item pid) p ini hex hs ho hi hfd
+    have := Trans.create (h := s.height) (opts := s.opts) (vals := s.vals) (s.item pid) p ini hex hs ho hi hfd
     rw [hp] at this; exact this
   | fund pid f v fee =>
     simp only [runTx] at h
@@ -1278,7 +1282,7 @@ theorem runTx_step (E : Env) (s s' : St) (op : Op) (hopts : OptsOK s.opts) (h : 
     split at h
     · split at h
       · obtain ⟨s1, b, h1, _, rfl⟩ := withFee_ok _ _ _ _ h
-        obtain ⟨p, votes', r, ha, hs, hd, hu, hr, rfl⟩ := runVote_ok E s s1 pid val o h1
+        obtain ⟨p, votes', r, ha, hs, hd, hu, hr, rfl⟩ := runVote_ok s s1 pid val o h1
         refine ⟨⟨rfl, rfl, rfl, rfl⟩, Or.inr ⟨pid, _, ?_, rfl⟩⟩
         cases r with
         | passed => exact Trans.votePass (s.item pid) p val o votes' ha hs hd hu hr
@@ -1303,8 +1307,8 @@ theorem runTx_step (E : Env) (s s' : St) (op : Op) (hopts : OptsOK s.opts) (h : 
     · exact Trans.withdrawConv (s.item pid) p f v it2 hq hn1 hn2 hlt hh (by simpa using hf) (by omega) hd
   | expire pid =>
     simp only [runTx] at h
-    obtain ⟨p, ha, rfl⟩ := runExpire_ok s s' pid h
-    exact ⟨⟨rfl, rfl, rfl, rfl⟩, Or.inr ⟨pid, _, Trans.expire (s.item pid) p ha, rfl⟩⟩
+    obtain ⟨p, ha, hs, hd, rfl⟩ := runExpire_ok s s' pid h
+    exact ⟨⟨rfl, rfl, rfl, rfl⟩, Or.inr ⟨pid, _, Trans.expire (s.item pid) p ha hs hd, rfl⟩⟩
   | finalize pid =>
     simp only [runTx] at h
     exact runFinalize_step E s s' pid h
@@ -1341,8 +1345,8 @@ theorem deleteAllFunds_failed (it : Item) : it.deleteAllFunds.1.failed = it.fail
 
 /-- what a transformation can do to the ACTIVE copy: keep it, remove it, create it (only for an
     unknown id), or turn a FUNDING copy into a VOTING one -/
-theorem trans_active (E : Env) (h : Int) (opts : Opts) (vals : List (Addr × ValRec)) (it it' : Item)
-    (t : Trans E h opts vals it it') :
+theorem trans_active (h : Int) (opts : Opts) (vals : List (Addr × ValRec)) (it it' : Item)
+    (t : Trans h opts vals it it') :
     it'.active = it.active ∨ it'.active = none ∨ it.exists = false ∨
     (∃ p, it.active = some p ∧ p.status = .funding ∧ h ≤ p.fundingDeadline ∧ it'.total ≥ p.fundingGoal ∧
        it'.active = some { p with status := .voting, votingDeadline := h + (opts.byType p.ptype).votingDeadline }) := by
@@ -1356,7 +1360,7 @@ theorem trans_active (E : Env) (h : Int) (opts : Opts) (vals : List (Addr × Val
   | votePass p a o votes' _ _ _ _ _ => right; left; simp
   | voteFail p a o votes' _ _ _ _ _ => right; left; simp
   | cancel p _ _ _ => right; left; simp
-  | expire p _ => right; left; simp
+  | expire p _ _ _ => right; left; simp
   | withdraw p f v it2 _ _ _ _ hd => left; exact (deductFunds_copies _ _ _ _ hd).1
   | withdrawConv p f v it2 _ _ _ _ _ _ _ hd =>
     right; left
@@ -1369,8 +1373,8 @@ theorem trans_active (E : Env) (h : Int) (opts : Opts) (vals : List (Addr × Val
   | finBad p r _ _ _ _ _ _ _ => left; simp [deleteAllFunds_active]
   | commit => left; rfl
 
-theorem trans_exists (E : Env) (h : Int) (opts : Opts) (vals : List (Addr × ValRec)) (it it' : Item)
-    (t : Trans E h opts vals it it') (he : it.exists = true) : it'.exists = true := by
+theorem trans_exists (h : Int) (opts : Opts) (vals : List (Addr × ValRec)) (it it' : Item)
+    (t : Trans h opts vals it it') (he : it.exists = true) : it'.exists = true := by
   cases t with
   | create p v he' _ _ _ _ => rw [he'] at he; cases he
   | fundMore p f v ha _ _ _ _ => exact Item.exists_of_get _ .active p (by simp [ha])
@@ -1379,7 +1383,7 @@ theorem trans_exists (E : Env) (h : Int) (opts : Opts) (vals : List (Addr × Val
   | votePass p a o votes' _ _ _ _ _ => exact Item.exists_of_get _ .passed _ (by simp [Item.get_del, Item.get_set]; rfl)
   | voteFail p a o votes' _ _ _ _ _ => exact Item.exists_of_get _ .failed _ (by simp [Item.get_del, Item.get_set]; rfl)
   | cancel p _ _ _ => exact Item.exists_of_get _ .failed _ (by simp [Item.get_del, Item.get_set]; rfl)
-  | expire p _ => exact Item.exists_of_get _ .failed _ (by simp [Item.get_del, Item.get_set]; rfl)
+  | expire p _ _ _ => exact Item.exists_of_get _ .failed _ (by simp [Item.get_del, Item.get_set]; rfl)
   | withdraw p f v it2 _ _ _ _ hd =>
     obtain ⟨a, b, c, d, e, _⟩ := deductFunds_copies _ _ _ _ hd
     simp only [Item.exists, a, b, c, d, e] at he ⊢; exact he
@@ -1394,8 +1398,8 @@ theorem trans_exists (E : Env) (h : Int) (opts : Opts) (vals : List (Addr × Val
   | commit => exact he
 
 /-- a finalised proposal stays finalised -/
-theorem trans_final (E : Env) (h : Int) (opts : Opts) (vals : List (Addr × ValRec)) (it it' : Item)
-    (t : Trans E h opts vals it it') (hf : it.finalized.isSome ∨ it.finFailed.isSome) :
+theorem trans_final (h : Int) (opts : Opts) (vals : List (Addr × ValRec)) (it it' : Item)
+    (t : Trans h opts vals it it') (hf : it.finalized.isSome ∨ it.finFailed.isSome) :
     it'.finalized.isSome ∨ it'.finFailed.isSome := by
   cases t with
   | create p v he _ _ _ _ =>
@@ -1407,7 +1411,7 @@ theorem trans_final (E : Env) (h : Int) (opts : Opts) (vals : List (Addr × ValR
   | votePass p a o votes' _ _ _ _ _ => simpa using hf
   | voteFail p a o votes' _ _ _ _ _ => simpa using hf
   | cancel p _ _ _ => simpa using hf
-  | expire p _ => simpa using hf
+  | expire p _ _ _ => simpa using hf
   | withdraw p f v it2 _ _ _ _ hd =>
     obtain ⟨_, _, _, d, e, _⟩ := deductFunds_copies _ _ _ _ hd
     rw [d, e]; exact hf
@@ -1421,8 +1425,8 @@ theorem trans_final (E : Env) (h : Int) (opts : Opts) (vals : List (Addr × ValR
 
 
 /-- no transformation lowers the stage -/
-theorem trans_rank (E : Env) (h : Int) (opts : Opts) (vals : List (Addr × ValRec)) (it it' : Item)
-    (t : Trans E h opts vals it it') : it.rank ≤ it'.rank := by
+theorem trans_rank (h : Int) (opts : Opts) (vals : List (Addr × ValRec)) (it it' : Item)
+    (t : Trans h opts vals it it') : it.rank ≤ it'.rank := by
   have hA := rankA_le it.active
   have hB := rankB_le it.passed it.failed
   have hC := rankC_le it.finalized it.finFailed
@@ -1442,7 +1446,7 @@ theorem trans_rank (E : Env) (h : Int) (opts : Opts) (vals : List (Addr × ValRe
   | votePass p a o votes' _ _ _ _ _ => simp [Item.rank]; omega
   | voteFail p a o votes' _ _ _ _ _ => simp [Item.rank]; omega
   | cancel p _ _ _ => simp [Item.rank]; omega
-  | expire p _ => simp [Item.rank]; omega
+  | expire p _ _ _ => simp [Item.rank]; omega
   | withdraw p f v it2 _ _ _ _ hd =>
     obtain ⟨a, b, c, d, e, _⟩ := deductFunds_copies _ _ _ _ hd
     simp [Item.rank, a, b, c, d, e]
@@ -1517,7 +1521,7 @@ theorem runTx_opts (E : Env) (s s' : St) (op : Op) (h : runTx E s op = .ok s') :
     (s'.opts = s.opts ∧ s'.applied = s.applied) ∨
     ∃ pid p k v, op = .finalize pid ∧ (s.item pid).finalized = none ∧ (s.item pid).finFailed = none ∧
       (s.item pid).decided = some p ∧ p.status = .completed ∧ p.ptype = .config ∧
-      resultSoFar E (s.item pid).votes p.passPercent = some .passed ∧
+      resultSoFar (s.item pid).votes p.passPercent = some .passed ∧
       parseCfg p.cfg = .upd k v ∧ applyUpd E s.opts k v s.height = some s'.opts ∧
       s'.applied = s.applied ++ [pid] ∧
       ((s'.item pid).finalized.isSome ∨ (s'.item pid).finFailed.isSome) := by
@@ -1540,7 +1544,7 @@ theorem runTx_opts (E : Env) (s s' : St) (op : Op) (h : runTx E s op = .ok s') :
     split at h
     · split at h
       · obtain ⟨s1, b, h1, _, rfl⟩ := withFee_ok _ _ _ _ h
-        obtain ⟨p, votes', r, _, _, _, _, _, rfl⟩ := runVote_ok E s s1 pid val o h1
+        obtain ⟨p, votes', r, _, _, _, _, _, rfl⟩ := runVote_ok s s1 pid val o h1
         left; exact ⟨rfl, rfl⟩
       · cases h
     · cases h
@@ -1557,7 +1561,7 @@ theorem runTx_opts (E : Env) (s s' : St) (op : Op) (h : runTx E s op = .ok s') :
     left; exact ⟨rfl, rfl⟩
   | expire pid =>
     simp only [runTx] at h
-    obtain ⟨p, _, rfl⟩ := runExpire_ok s s' pid h
+    obtain ⟨p, _, _, _, rfl⟩ := runExpire_ok s s' pid h
     left; exact ⟨rfl, rfl⟩
   | finalize pid =>
     simp only [runTx] at h
@@ -1632,7 +1636,7 @@ theorem alookup_of_mem_nodup {V : Type} (l : List (PID × V)) (k : PID) (v : V) 
 
 theorem wf_runTx (E : Env) (s s' : St) (op : Op) (w : WF s) (h : runTx E s op = .ok s') : WF s' := by
   obtain ⟨fr, hstep⟩ := runTx_step E s s' op w.opts h
-  have hitem : ∀ pid, s'.item pid = s.item pid ∨ Trans E s.height s.opts s.vals (s.item pid) (s'.item pid) := by
+  have hitem : ∀ pid, s'.item pid = s.item pid ∨ Trans s.height s.opts s.vals (s.item pid) (s'.item pid) := by
     intro pid
     rcases hstep with he | ⟨pid0, it', ht, he⟩
     · left; unfold St.item; rw [he]
@@ -1649,12 +1653,12 @@ theorem wf_runTx (E : Env) (s s' : St) (op : Op) (w : WF s) (h : runTx E s op = 
     intro pid hf
     rcases hitem pid with he | ht
     · rw [he]; exact hf
-    · exact trans_final _ _ _ _ _ _ ht hf
+    · exact trans_final _ _ _ _ _ ht hf
   refine ⟨hkeys, ?_, ?_, ?_, ?_, ?_⟩
   · intro pid
     rcases hitem pid with he | ht
     · rw [he]; exact w.items pid
-    · exact wfi_trans _ _ _ _ _ _ (w.items pid) ht
+    · exact wfi_trans _ _ _ _ _ (w.items pid) ht
   · rcases runTx_opts E s s' op h with ⟨ho, _⟩ | ⟨pid, p, k, v, _, _, _, _, _, _, _, _, hu, _, _⟩
     · rw [ho]; exact w.opts
     · intro t
@@ -1665,9 +1669,9 @@ theorem wf_runTx (E : Env) (s s' : St) (op : Op) (w : WF s) (h : runTx E s op = 
     rw [fr.height]
     rcases hitem pid with he | ht
     · rw [he]; exact ⟨hex, hact⟩
-    · refine ⟨trans_exists _ _ _ _ _ _ ht hex, ?_⟩
+    · refine ⟨trans_exists _ _ _ _ _ ht hex, ?_⟩
       intro p' hp'
-      rcases trans_active _ _ _ _ _ _ ht with h1 | h1 | h1 | ⟨p, ha, hs, _, _, _⟩
+      rcases trans_active _ _ _ _ _ ht with h1 | h1 | h1 | ⟨p, ha, hs, _, _, _⟩
       · rw [h1] at hp'; exact hact p' hp'
       · rw [h1] at hp'; cases hp'
       · rw [hex] at h1; cases h1
@@ -1765,7 +1769,7 @@ theorem wf_beginBlock (s : St) (h : Int) (w : WF s) : WF (beginBlock s h) := by
       exact hw
   · intro pid hp
     rw [beginBlock_item]
-    exact trans_final exactEnv 0 s.opts [] _ _ (Trans.commit _) (w.appliedFinal pid hp)
+    exact trans_final 0 s.opts [] _ _ (Trans.commit _) (w.appliedFinal pid hp)
 
 theorem wf_internal (E : Env) (s s' : St) (op : Op) (w : WF s) (h : internal E (some s) op = some s') : WF s' := by
   unfold internal at h
@@ -1981,7 +1985,7 @@ theorem runTx_value (E : Env) (s s' : St) (op : Op) (w : WF s) (h : runTx E s op
     split at h
     · split at h
       · obtain ⟨s1, b, h1, hfee, rfl⟩ := withFee_ok _ _ _ _ h
-        obtain ⟨p, votes', r, _, _, _, _, _, rfl⟩ := runVote_ok E s s1 pid val o h1
+        obtain ⟨p, votes', r, _, _, _, _, _, rfl⟩ := runVote_ok s s1 pid val o h1
         have ht := total_transfer _ _ _ _ _ hfee
         simp only [value]
         show total b + sumTotals (s.setItem pid _).items + s.burned = _
@@ -2019,7 +2023,7 @@ theorem runTx_value (E : Env) (s s' : St) (op : Op) (w : WF s) (h : runTx E s op
     omega
   | expire pid =>
     simp only [runTx] at h
-    obtain ⟨p, _, rfl⟩ := runExpire_ok s s' pid h
+    obtain ⟨p, _, _, _, rfl⟩ := runExpire_ok s s' pid h
     simp only [value]
     show total s.bal + sumTotals (s.setItem pid _).items + s.burned = _
     rw [sumTotals_setItem]
@@ -2033,7 +2037,7 @@ theorem runTx_value (E : Env) (s s' : St) (op : Op) (w : WF s) (h : runTx E s op
         rw [sumTotals_setItem]
         simp only [Item.del_total, Item.set_total, St.setItem_bal, St.setItem_burned]; omega
       · obtain ⟨_, _, _, _, _, _, _, hbal, hburn, hitems⟩ := distributeAndMove_items s s2 pid p d src hdm
-        obtain ⟨hbad, htot, _⟩ := deleteAll_clears E (s.item pid) p.passPercent r (w.items pid) hr
+        obtain ⟨hbad, htot, _⟩ := deleteAll_clears (s.item pid) p.passPercent r (w.items pid) hr
         simp only [hbad] at hitems
         simp only [Bool.false_eq_true, if_false] at hitems
         have hv2 : value s2 + s2.burned = value s + s.burned := by
@@ -2062,7 +2066,7 @@ theorem runTx_optsOK (E : Env) (s s' : St) (op : Op) (ho : OptsOK s.opts) (h : r
   · intro t; rw [applyUpd_byType E s.opts s'.opts k v s.height hu]; exact ho t
 
 theorem runTx_item (E : Env) (s s' : St) (op : Op) (ho : OptsOK s.opts) (h : runTx E s op = .ok s') (pid : PID) :
-    s'.item pid = s.item pid ∨ Trans E s.height s.opts s.vals (s.item pid) (s'.item pid) := by
+    s'.item pid = s.item pid ∨ Trans s.height s.opts s.vals (s.item pid) (s'.item pid) := by
   obtain ⟨_, hstep⟩ := runTx_step E s s' op ho h
   rcases hstep with he | ⟨pid0, it', ht, he⟩
   · left; unfold St.item; rw [he]
@@ -2075,7 +2079,7 @@ theorem runTx_rank (E : Env) (s s' : St) (op : Op) (ho : OptsOK s.opts) (h : run
     (s.item pid).rank ≤ (s'.item pid).rank := by
   rcases runTx_item E s s' op ho h pid with e | t
   · rw [e]; exact Nat.le_refl _
-  · exact trans_rank _ _ _ _ _ _ t
+  · exact trans_rank _ _ _ _ _ t
 
 theorem internal_rank (E : Env) (s s' : St) (op : Op) (ho : OptsOK s.opts) (h : internal E (some s) op = some s') (pid : PID) :
     (s.item pid).rank ≤ (s'.item pid).rank ∧ OptsOK s'.opts := by
@@ -2145,7 +2149,7 @@ theorem internal_expire_active (E : Env) (s s' : St) (pid0 : PID) (h : internal 
   split at h
   · rename_i s1 h1; simp only [Option.some.injEq] at h; subst h
     simp only [runTx] at h1
-    obtain ⟨p, _, rfl⟩ := runExpire_ok s s1 pid0 h1
+    obtain ⟨p, _, _, _, rfl⟩ := runExpire_ok s s1 pid0 h1
     rw [St.item_setItem]
     by_cases hp : pid = pid0
     · right; exact hp
@@ -2205,85 +2209,34 @@ theorem endBlock_active (E : Env) (s s' : St) (h : endBlock E s = some s') (pid 
 
 /-! ## decisions follow the tally -/
 
-/-- the float comparisons agree with the rationals (stated for a positive denominator) -/
-structure Env.Exact (E : Env) : Prop where
-  ge : ∀ x t p, 0 < t → E.geDiv x t p = decide (p * t ≤ x * 100)
-  lt : ∀ x t p, 0 < t → E.ltOneMinus x t p = decide ((t - x) * 100 < p * t)
-
-theorem exactEnv_exact : exactEnv.Exact := ⟨fun _ _ _ _ => rfl, fun _ _ _ _ => rfl⟩
-
-/-- PASSED: yes power reaches the pass percentage of the power that did not give up -/
-def passCond (yes all giveup pass : Int) : Prop :=
-  if all - giveup > 0 then pass * (all - giveup) ≤ yes * 100 else pass ≤ 0
-
-/-- FAILED: even with every other validator voting yes the percentage cannot be reached -/
-def failCond (no all giveup pass : Int) : Prop :=
-  if all - giveup > 0 then ((all - giveup) - no) * 100 < pass * (all - giveup) else 100 < pass
-
-theorem decide3_passed (E : Env) (hE : E.Exact) (yes no all giveup pass : Int)
-    (h : decide3 E yes no all giveup pass = .passed) : passCond yes all giveup pass := by
+theorem decide3_passed (yes no all giveup pass : Int)
+    (h : decide3 yes no all giveup pass = .passed) : passCond yes all giveup pass := by
   unfold decide3 at h
-  unfold passCond
-  simp only at h
-  by_cases ht : all - giveup > 0
-  · simp only [ht, if_true] at h ⊢
-    rw [hE.ge _ _ _ ht] at h
-    split at h
-    · rename_i hc; simpa using hc
-    · split at h <;> cases h
-  · simp only [ht, if_false] at h ⊢
-    rw [hE.ge _ _ _ (by omega)] at h
-    split at h
-    · rename_i hc; simp at hc; omega
-    · split at h <;> cases h
+  split at h
+  · assumption
+  · split at h <;> cases h
 
-theorem decide3_failed (E : Env) (hE : E.Exact) (yes no all giveup pass : Int)
-    (h : decide3 E yes no all giveup pass = .failed) :
+theorem decide3_failed (yes no all giveup pass : Int)
+    (h : decide3 yes no all giveup pass = .failed) :
     ¬ passCond yes all giveup pass ∧ failCond no all giveup pass := by
   unfold decide3 at h
-  unfold passCond failCond
-  simp only at h
-  by_cases ht : all - giveup > 0
-  · simp only [ht, if_true] at h ⊢
-    rw [hE.ge _ _ _ ht, hE.lt _ _ _ ht] at h
+  split at h
+  · cases h
+  · rename_i h1
     split at h
+    · rename_i h2; exact ⟨h1, h2⟩
     · cases h
-    · rename_i hc
-      split at h
-      · rename_i hc2; simp at hc hc2; exact ⟨by omega, hc2⟩
-      · cases h
-  · simp only [ht, if_false] at h ⊢
-    rw [hE.ge _ _ _ (by omega), hE.lt _ _ _ (by omega)] at h
-    split at h
-    · cases h
-    · rename_i hc
-      split at h
-      · rename_i hc2; simp at hc hc2; exact ⟨by omega, by omega⟩
-      · cases h
 
-theorem decide3_tbd (E : Env) (hE : E.Exact) (yes no all giveup pass : Int)
-    (h : decide3 E yes no all giveup pass = .tbd) :
+theorem decide3_tbd (yes no all giveup pass : Int)
+    (h : decide3 yes no all giveup pass = .tbd) :
     ¬ passCond yes all giveup pass ∧ ¬ failCond no all giveup pass := by
   unfold decide3 at h
-  unfold passCond failCond
-  simp only at h
-  by_cases ht : all - giveup > 0
-  · simp only [ht, if_true] at h ⊢
-    rw [hE.ge _ _ _ ht, hE.lt _ _ _ ht] at h
+  split at h
+  · cases h
+  · rename_i h1
     split at h
     · cases h
-    · rename_i hc
-      split at h
-      · cases h
-      · rename_i hc2; simp at hc hc2; exact ⟨by omega, by omega⟩
-  · simp only [ht, if_false] at h ⊢
-    rw [hE.ge _ _ _ (by omega), hE.lt _ _ _ (by omega)] at h
-    split at h
-    · cases h
-    · rename_i hc
-      split at h
-      · cases h
-      · rename_i hc2; simp at hc hc2; exact ⟨by omega, by omega⟩
+    · rename_i h2; exact ⟨h1, h2⟩
 
 /-- the tally `ResultSoFar` accumulates: powers of the committed vote records -/
 def yesPower (votes : List (Addr × VoteRec)) : Int := powerOf .yes (cvotes votes)
@@ -2291,9 +2244,9 @@ def noPower (votes : List (Addr × VoteRec)) : Int := powerOf .no (cvotes votes)
 def giveupPower (votes : List (Addr × VoteRec)) : Int := powerOf .giveup (cvotes votes)
 def totalPower (votes : List (Addr × VoteRec)) : Int := allPower (cvotes votes)
 
-theorem resultSoFar_decide3 (E : Env) (votes : List (Addr × VoteRec)) (pass : Int) (r : VoteResult)
-    (h : resultSoFar E votes pass = some r) :
-    decide3 E (yesPower votes) (noPower votes) (totalPower votes) (giveupPower votes) pass = r := by
+theorem resultSoFar_decide3 (votes : List (Addr × VoteRec)) (pass : Int) (r : VoteResult)
+    (h : resultSoFar votes pass = some r) :
+    decide3 (yesPower votes) (noPower votes) (totalPower votes) (giveupPower votes) pass = r := by
   unfold resultSoFar at h
   simp only at h
   split at h
@@ -2302,14 +2255,14 @@ theorem resultSoFar_decide3 (E : Env) (votes : List (Addr × VoteRec)) (pass : I
 
 /-- a copy with a yes / no outcome appears only through a vote whose tally says so; every other
     transformation copies such a record from one that was already there -/
-theorem trans_outcome (E : Env) (h : Int) (opts : Opts) (vals : List (Addr × ValRec)) (it it' : Item)
-    (t : Trans E h opts vals it it') (st : Store) (p' : Proposal) (hg : it'.get st = some p')
+theorem trans_outcome (h : Int) (opts : Opts) (vals : List (Addr × ValRec)) (it it' : Item)
+    (t : Trans h opts vals it it') (st : Store) (p' : Proposal) (hg : it'.get st = some p')
     (ho : p'.outcome = .completedYes ∨ p'.outcome = .completedNo) :
     (∃ st0 p0, it.get st0 = some p0 ∧ p0.outcome = p'.outcome) ∨
     (p'.outcome = .completedYes ∧ st = .passed ∧
-       resultSoFar E it'.votes (opts.byType p'.ptype).passPercent = some .passed) ∨
+       resultSoFar it'.votes (opts.byType p'.ptype).passPercent = some .passed) ∨
     (p'.outcome = .completedNo ∧ st = .failed ∧
-       resultSoFar E it'.votes (opts.byType p'.ptype).passPercent = some .failed) := by
+       resultSoFar it'.votes (opts.byType p'.ptype).passPercent = some .failed) := by
   have same : ∀ (x : Item), (∀ s, x.get s = it.get s) → x.get st = some p' →
       (∃ st0 p0, it.get st0 = some p0 ∧ p0.outcome = p'.outcome) := by
     intro x hx hq; rw [hx] at hq; exact ⟨st, p', hq, rfl⟩
@@ -2349,7 +2302,7 @@ theorem trans_outcome (E : Env) (h : Int) (opts : Opts) (vals : List (Addr × Va
     · by_cases h2 : st = .failed
       · simp [h2] at hg; subst hg; rcases ho with h | h <;> cases h
       · simp [h1, h2] at hg; left; exact ⟨st, p', hg, rfl⟩
-  | expire p _ =>
+  | expire p _ _ _ =>
     simp only [Item.get_del, Item.get_set] at hg
     by_cases h1 : st = .active
     · simp [h1] at hg
@@ -2368,6 +2321,110 @@ theorem trans_outcome (E : Env) (h : Int) (opts : Opts) (vals : List (Addr × Va
     · simp [h1] at hg'
     · by_cases h2 : st = .failed
       · simp [h2] at hg'; subst hg'; rcases ho with h | h <;> cases h
+      · simp [h1, h2] at hg'; left; exact ⟨st, p', hg', rfl⟩
+  | finCfgFailed p _ _ hd _ _ =>
+    simp only [Item.get_del, Item.get_set] at hg
+    by_cases h1 : st = .passed
+    · simp [h1] at hg
+    · by_cases h2 : st = .finFailed
+      · simp [h2] at hg; subst hg
+        left
+        rcases Item.decided_get it p hd with h | ⟨_, h⟩
+        · exact ⟨.passed, p, h, rfl⟩
+        · exact ⟨.failed, p, h, rfl⟩
+      · simp [h1, h2] at hg; left; exact ⟨st, p', hg, rfl⟩
+  | finalize p r src _ _ hd _ _ hsrc _ =>
+    simp only [Item.get_del, Item.get_set, deleteAllFunds_get] at hg
+    have hsrc' : src ≠ .finalized := by rcases hsrc with ⟨_, h⟩ | ⟨_, h⟩ <;> simp [h]
+    by_cases h1 : st = src
+    · simp [h1] at hg
+    · by_cases h2 : st = .finalized
+      · simp [h2, hsrc', hsrc'.symm] at hg; subst hg
+        left
+        rcases Item.decided_get it p hd with h | ⟨_, h⟩
+        · exact ⟨.passed, p, h, rfl⟩
+        · exact ⟨.failed, p, h, rfl⟩
+      · simp [h1, h2] at hg; left; exact ⟨st, p', hg, rfl⟩
+  | finBad p r _ _ hd _ _ _ _ =>
+    simp only [Item.get_del, Item.get_set, deleteAllFunds_get] at hg
+    by_cases h1 : st = .passed
+    · simp [h1] at hg
+    · by_cases h2 : st = .finFailed
+      · simp [h2] at hg; subst hg
+        left
+        rcases Item.decided_get it p hd with h | ⟨_, h⟩
+        · exact ⟨.passed, p, h, rfl⟩
+        · exact ⟨.failed, p, h, rfl⟩
+      · simp [h1, h2] at hg; left; exact ⟨st, p', hg, rfl⟩
+  | commit => left; exact same _ (fun s => by cases s <;> rfl) hg
+
+
+/-- a copy with the outcome "insufficient votes" appears only by expiring an ACTIVE proposal that
+    is in its VOTING stage with the deadline below the height; every other transformation copies
+    such a record from one that was already there -/
+theorem trans_expiry (h : Int) (opts : Opts) (vals : List (Addr × ValRec)) (it it' : Item)
+    (t : Trans h opts vals it it') (st : Store) (p' : Proposal) (hg : it'.get st = some p')
+    (ho : p'.outcome = .insufficientVotes) :
+    (∃ st0 p0, it.get st0 = some p0 ∧ p0.outcome = p'.outcome) ∨
+    (st = .failed ∧ ∃ p, it.active = some p ∧ p.status = .voting ∧ p.votingDeadline < h ∧
+       p' = { p with status := .completed, outcome := .insufficientVotes }) := by
+  have same : ∀ (x : Item), (∀ s, x.get s = it.get s) → x.get st = some p' →
+      (∃ st0 p0, it.get st0 = some p0 ∧ p0.outcome = p'.outcome) := by
+    intro x hx hq; rw [hx] at hq; exact ⟨st, p', hq, rfl⟩
+  cases t with
+  | create p v he hs hop _ _ =>
+    simp only [Item.addFunds_get, Item.get_set] at hg
+    by_cases h1 : st = .active
+    · simp [h1] at hg; subst hg; rw [hop] at ho; cases ho
+    · simp [h1] at hg; left; exact ⟨st, p', hg, rfl⟩
+  | fundMore p f v _ _ _ _ _ => left; exact same _ (fun s => by simp) hg
+  | fundStart p f v ha _ _ _ _ =>
+    simp only [Item.addFunds_get, Item.withVotes_get, Item.get_set] at hg
+    by_cases h1 : st = .active
+    · simp [h1] at hg; subst hg; left; exact ⟨.active, p, by simp [ha], rfl⟩
+    · simp [h1] at hg; left; exact ⟨st, p', hg, rfl⟩
+  | voteTbd p a o votes' _ _ _ _ _ => left; exact same _ (fun s => by simp) hg
+  | votePass p a o votes' ha _ _ _ hr =>
+    simp only [Item.get_del, Item.get_set, Item.withVotes_get] at hg
+    by_cases h1 : st = .active
+    · simp [h1] at hg
+    · by_cases h2 : st = .passed
+      · simp [h2] at hg; subst hg; cases ho
+      · simp [h1, h2] at hg; left; exact ⟨st, p', hg, rfl⟩
+  | voteFail p a o votes' ha _ _ _ hr =>
+    simp only [Item.get_del, Item.get_set, Item.withVotes_get] at hg
+    by_cases h1 : st = .active
+    · simp [h1] at hg
+    · by_cases h2 : st = .failed
+      · simp [h2] at hg; subst hg; cases ho
+      · simp [h1, h2] at hg; left; exact ⟨st, p', hg, rfl⟩
+  | cancel p _ _ _ =>
+    simp only [Item.get_del, Item.get_set] at hg
+    by_cases h1 : st = .active
+    · simp [h1] at hg
+    · by_cases h2 : st = .failed
+      · simp [h2] at hg; subst hg; cases ho
+      · simp [h1, h2] at hg; left; exact ⟨st, p', hg, rfl⟩
+  | expire p ha hs hd =>
+    simp only [Item.get_del, Item.get_set] at hg
+    by_cases h1 : st = .active
+    · simp [h1] at hg
+    · by_cases h2 : st = .failed
+      · simp [h2] at hg; subst hg
+        right; exact ⟨h2, p, ha, hs, by omega, rfl⟩
+      · simp [h1, h2] at hg; left; exact ⟨st, p', hg, rfl⟩
+  | withdraw p f v it2 _ _ _ _ hd =>
+    obtain ⟨a, b, c, d, e, _⟩ := deductFunds_copies _ _ _ _ hd
+    left; exact same _ (fun s => by cases s <;> simp [Item.get, a, b, c, d, e]) hg
+  | withdrawConv p f v it2 _ _ _ _ _ _ _ hd =>
+    obtain ⟨a, b, c, d, e, _⟩ := deductFunds_copies _ _ _ _ hd
+    have hg' : ((it.set .failed { p with outcome := .insufficientFunds, status := .completed }).del .active).get st = some p' := by
+      cases st <;> simp only [Item.get] at hg ⊢ <;> first | (rw [← a]; exact hg) | (rw [← b]; exact hg) | (rw [← c]; exact hg) | (rw [← d]; exact hg) | (rw [← e]; exact hg)
+    simp only [Item.get_del, Item.get_set] at hg'
+    by_cases h1 : st = .active
+    · simp [h1] at hg'
+    · by_cases h2 : st = .failed
+      · simp [h2] at hg'; subst hg'; cases ho
       · simp [h1, h2] at hg'; left; exact ⟨st, p', hg', rfl⟩
   | finCfgFailed p _ _ hd _ _ =>
     simp only [Item.get_del, Item.get_set] at hg
@@ -2430,8 +2487,8 @@ theorem powers_commit (l : List (Addr × VoteRec)) : powers (commitVotes l) = po
   simp [powers, commitVotes, List.map_map, Function.comp_def]
 
 /-- vote records (who, with what power) are written when voting begins and never altered -/
-theorem trans_votes (E : Env) (h : Int) (opts : Opts) (vals : List (Addr × ValRec)) (it it' : Item)
-    (t : Trans E h opts vals it it') :
+theorem trans_votes (h : Int) (opts : Opts) (vals : List (Addr × ValRec)) (it it' : Item)
+    (t : Trans h opts vals it it') :
     powers it'.votes = powers it.votes ∨
     (∃ p, it.active = some p ∧ p.status = .funding ∧ it'.votes = snapshot it.votes vals) := by
   cases t with
@@ -2451,7 +2508,7 @@ theorem trans_votes (E : Env) (h : Int) (opts : Opts) (vals : List (Addr × ValR
     obtain ⟨r, hr, rfl⟩ := updateVote_some _ _ _ _ hu
     simpa using powers_upsert_same it.votes a r { r with opinion := o } hr rfl
   | cancel p _ _ _ => left; simp
-  | expire p _ => left; simp
+  | expire p _ _ _ => left; simp
   | withdraw p f v it2 _ _ _ _ hd => left; rw [(deductFunds_copies _ _ _ _ hd).2.2.2.2.2]
   | withdrawConv p f v it2 _ _ _ _ _ _ _ hd => left; rw [(deductFunds_copies _ _ _ _ hd).2.2.2.2.2]; simp
   | finCfgFailed p _ _ _ _ _ => left; simp
@@ -2518,9 +2575,9 @@ theorem fundAmount_commit (l : List (Addr × FundRec)) (g : Addr) : fundAmount (
 
 /-- for a proposal that was cancelled or missed its goal, the only transformation that changes
     an escrow record is a withdrawal, which lowers one record and the total by the same amount -/
-theorem trans_refundable (E : Env) (h : Int) (opts : Opts) (vals : List (Addr × ValRec)) (it it' : Item)
+theorem trans_refundable (h : Int) (opts : Opts) (vals : List (Addr × ValRec)) (it it' : Item)
     (w : WFI it) (p : Proposal) (hq : it.queryAll = some p) (hr : refundable p)
-    (t : Trans E h opts vals it it') :
+    (t : Trans h opts vals it it') :
     it'.queryAll = some p ∧
     (((∀ g, fundAmount it'.funds g = fundAmount it.funds g) ∧ it'.total = it.total) ∨
      ∃ f v, 0 ≤ v ∧ v ≤ fundAmount it.funds f ∧ fundAmount it'.funds f = fundAmount it.funds f - v ∧
@@ -2536,9 +2593,9 @@ theorem trans_refundable (E : Env) (h : Int) (opts : Opts) (vals : List (Addr ×
       have := (w.activeOpen p ha).1
       unfold refundable at hr; rw [this] at hr; rcases hr with h | h <;> cases h
   have hex : it.exists = true := Item.exists_of_get it st p hst
-  have notally : ∀ pass r, resultSoFar E it.votes pass = some r → False := by
+  have notally : ∀ pass r, resultSoFar it.votes pass = some r → False := by
     intro pass r hrs
-    obtain ⟨kv, hkv, _⟩ := resultSoFar_some E it.votes pass r hrs
+    obtain ⟨kv, hkv, _⟩ := resultSoFar_some it.votes pass r hrs
     rw [hvotes] at hkv; cases hkv
   cases t with
   | create p' v he _ _ _ _ => rw [he] at hex; cases hex
@@ -2548,7 +2605,7 @@ theorem trans_refundable (E : Env) (h : Int) (opts : Opts) (vals : List (Addr ×
   | votePass p' a o votes' ha _ _ _ _ => rw [hact] at ha; cases ha
   | voteFail p' a o votes' ha _ _ _ _ => rw [hact] at ha; cases ha
   | cancel p' ha _ _ => rw [hact] at ha; cases ha
-  | expire p' ha => rw [hact] at ha; cases ha
+  | expire p' ha _ _ => rw [hact] at ha; cases ha
   | withdraw p' f v it2 _ _ hf hv hd =>
     obtain ⟨r, hr', _, h0, _, rfl⟩ := deductFunds_some it it' f v hd hf
     have hfa : fundAmount it.funds f = r.amount := by simp [fundAmount, hr']
